@@ -273,3 +273,110 @@ class DeserializeCursorSpec(SerializeCursorSpec):
         for f in got:
             conds.append(("cursor == persisted value", binop("Eq", f, inp["persisted"])))
         return conds
+
+
+class RecoverSliceSpec(KernelSpec):
+    """Storage::recover, the per-segment decision: a WAL segment found on disk is replayed (registered with the MetaStore and
+    kept) iff its id is at or after the persisted cursor; only segments strictly before the cursor are deleted/skipped, and a
+    read-only open never deletes.  Slice: starts at the block that compares the segment id with the cursor (the prefix - file
+    listing, thread pool, channel - is skipped and its state is havoc'd); register_wal_segment is executed for real on a
+    MetaStore in its just-deserialized state; the slice ends at the first of: push onto the kept-segments vector, BlobWriter::
+    delete, a logging call."""
+    method = ("Storage", None, "recover")
+    diff_cases = 0
+
+    def native(self, inst, shape, inp):
+        return None
+
+    def random_inputs(self, rng, inst, shape):
+        return None
+
+    def sym_inputs(self, inst, shape):
+        p, i = sym("u64", "persisted"), sym("u64", "segment_id")
+        # ids are handed out by add_wal_segment (next_wal_id += 1 from 0): below 2^63 in any reachable history
+        return {"persisted": p, "segment_id": i, "readonly": sym("bool", "readonly"), "size": sym("u64", "size")}, \
+            [z3.ULT(p.v, z3.BitVecVal(1 << 63, 64)), z3.ULT(i.v, z3.BitVecVal(1 << 63, 64))]
+
+    def explore(self, ctx, ex, fn, inst, shape, inp, pre):
+        fn.parse()
+        dbg = {name: local for local, name in fn.debug.items()}
+        for need in ("earliest_uncommited_wal_id", "wal_segment", "readonly", "meta_store", "wal_size", "size"):
+            if need not in dbg:
+                raise interp.Unsupported(f"recover: no local named {need} in the current source")
+        E, W = dbg["earliest_uncommited_wal_id"], dbg["wal_segment"]
+        # the comparison block: exactly one comparison mentions the cursor local
+        cmp_blocks = []
+        for b in fn.blocks.values():
+            for s in b.stmts:
+                if s.kind == "assign" and s.rvalue.kind == "binop" and s.rvalue.extra in ("Lt", "Le", "Gt", "Ge", "Eq", "Ne"):
+                    if any(a.place is not None and a.place.local == E and not a.place.proj for a in s.rvalue.args):
+                        cmp_blocks.append(b)
+        if len(cmp_blocks) != 1:
+            raise interp.Unsupported(f"recover: expected exactly one comparison against the cursor, found {len(cmp_blocks)}")
+        blk = cmp_blocks[0]
+        # the local the segment is moved out of at the start of that block (the channel item)
+        src = None
+        for s in blk.stmts:
+            if s.kind == "assign" and s.place.local == W and not s.place.proj and s.rvalue.kind == "use" and s.rvalue.args[0].place is not None:
+                src = s.rvalue.args[0].place
+        if src is None or not any(p[0] == "downcast" for p in src.proj):
+            raise interp.Unsupported("recover: segment is not taken from the channel item in the comparison block")
+        fs = ctx.src().struct_fields("WalSegment", having="id")
+        if fs is None:
+            raise interp.Unsupported("WalSegment has no id field")
+        seg = Agg("struct", [inp["segment_id"] if f == "id" else Havoc("EventBuffer", f) for f in fs], name="WalSegment")
+        item = Agg("enum", [Agg("tuple", [Opaque("PathBuf"), seg, inp["size"]])], name="Option", variant="Some")
+        ms, _ = metastore(ctx, inp["persisted"], inp["persisted"])
+
+        self._fs = metastore(ctx, inp["persisted"], inp["persisted"])[1]
+
+        def stop(kind):
+            def f(ex_, st, fr, path, args, m):
+                raise interp.StopSlice((kind, st.frames[0].locals[dbg["meta_store"]].v))
+            return f
+        ex.stubs = [(re.compile(r"Vec::<WalSegment.*>::push|Vec<WalSegment.*>::push"), stop("kept")),
+                    (re.compile(r"BlobWriter>::delete|BlobWriter::delete"), stop("deleted")),
+                    (re.compile(r"log::|max_level|PartialOrd<LevelFilter>"), stop("skipped"))]
+        ex.prune_unreachable = True
+        ex.havoc_unknown_calls = True
+        ex.inline_in_slices = lambda f: f.name.endswith("::register_wal_segment")
+        init = {src.local: item, E: inp["persisted"], dbg["readonly"]: inp["readonly"], dbg["meta_store"]: ms,
+                dbg["wal_size"]: I("u64", 0)}
+        st = ex.start_at(fn, blk.name, init, {}, pc=pre)
+        outs = ex.explore(st)
+        if not any(o.kind == "stop" and o.value[0] == "kept" for o in outs) or not any(o.kind == "stop" and o.value[0] != "kept" for o in outs):
+            raise interp.Unsupported("recover slice: both the keep and the discard branch must be reachable")
+        return outs
+
+    def post_stop(self, inst, shape, inp, o):
+        kind, ms = o.value
+        p, i = inp["persisted"], inp["segment_id"]
+        at_or_after = binop("Ge", i, p)
+        conds = []
+        if kind == "kept":
+            conds.append(("only segments at/after the persisted cursor are replayed (earlier ones are already in partitions)", at_or_after))
+            nxt = ms.fields[self._fs.index("next_wal_id")]
+            conds.append(("a replayed segment's id is never handed out again: next_wal_id > id afterwards",
+                          binop("Gt", nxt, i) if isinstance(nxt, I) else B(False)))
+        else:
+            conds.append(("a segment at/after the persisted cursor is never deleted or skipped (its rows exist nowhere else)", bnot(at_or_after)))
+            if kind == "deleted":
+                conds.append(("a read-only open deletes nothing", bnot(inp["readonly"])))
+        return conds
+
+    def post(self, inst, shape, inp, value, state=None):
+        return [("the slice ends at keep/delete/skip", B(False))]
+
+    # under-constrained slice: a counterexample counts only if the fixed restart scenario misbehaves through the public API
+    def api_check(self, inst, shape, conc, label):
+        bad, what, spec = api_restart_check()
+        self._last_api = spec
+        if bad is None:
+            return False, what
+        return bad, what
+
+    def api_spec(self, inst, shape, conc):
+        return getattr(self, "_last_api", {})
+
+    def panic_ok(self, inst, shape, inp, msg):
+        return B(False)
